@@ -315,7 +315,7 @@ Proof.
   vm_compute. repeat split.
 Qed.
 
-(* The pinned code (c_fix_moveout := false) on the same history: every path is still the root followed by valid names
+(* The pinned code (c_fix_relabel := true; c_fix_moveout := false) on the same history: every path is still the root followed by valid names
    (C19_pipeline_paths holds for both values of the flag), but "/w/é/\xff" is reported created, opened and closed
    although no such entry ever existed - the name law alone does not exclude phantom paths; the repair does. *)
 Example C19_moveout_pinned_phantom :
